@@ -141,7 +141,30 @@ def step (st : St) : List String → St × String
     -- whose run must be the `loopX` run (`same=`)
     match parseRat? T, parseNat? fuel, parseNat? c with
     | some T, some fuel, some c =>
-      if clockRel st.tbl then (st, "bad-op") else
+      if clockRel st.tbl then
+        -- round 6: clock-relative children.  `loopXC` (callbacks see the clock); the history advances by
+        -- `stepOpC` on the fuel and callbacks of `raise_eq_fuel_out_clock`, whose `loopC` run must be the
+        -- `loopXC` run (`same=`)
+        let kidsC := kidsOfC st.tbl
+        let rx := evolveUntilXC kidsC (fun e => e.ctr == c) fuel st.h.s T
+        match rx.raisedAt with
+        | none => doEvolve st T fuel none
+        | some e =>
+          let kC := kidsExceptC kidsC e
+          let j := (fired rx.run.trace).length
+          let run := evolveUntilC kC j st.h.s T
+          let hcC := stepOpC kC j ⟨st.h, st.ftbl⟩ (.evolve T)
+          let h' := hcC.h
+          let t0 := st.h.s.t
+          let out := s!"raised t={showRat h'.s.t} ctr={h'.s.ctr} trace=" ++
+            ";".intercalate (run.trace.map showEvent) ++ " queue=" ++
+            ";".intercalate (h'.s.queue.map showEntry) ++ " iv=" ++
+            ";".intercalate ((intervals t0 run.trace).map showIv) ++
+            s!" sum={showRat (sumDt run.trace)} lfc={showRat (lastFireClock t0 run.trace)}" ++
+            s!" same={decide (run = rx.run)}"
+          ({ st with h := h', ftbl := hcC.tbl, ops := st.ops ++ [.evolve T], fuel := some j, fuelSame := false,
+                     rops := st.rops ++ [.evolve (.val T)] }, out)
+      else
       let kids := kidsOf st.tbl
       let rx := evolveUntilX kids (fun e => e.ctr == c) fuel st.h.s T
       match rx.raisedAt with
